@@ -472,3 +472,24 @@ def stmts_in(body: List[ast.stmt]) -> Iterator[ast.stmt]:
         if isinstance(s, ast.Try):
             for h in s.handlers:
                 yield from stmts_in(h.body)
+
+
+class _Aug:
+    """View of `x op= e` and of its plain spelling `x = x op e` (name targets) as one shape."""
+    __slots__ = ("node", "target", "op", "value")
+
+    def __init__(self, node, target, op, value):
+        self.node, self.target, self.op, self.value = node, target, op, value
+
+
+def as_aug(s: ast.AST) -> Optional[_Aug]:
+    if isinstance(s, ast.AugAssign):
+        return _Aug(s, s.target, s.op, s.value)
+    if isinstance(s, ast.Assign) and len(s.targets) == 1 and isinstance(s.targets[0], ast.Name) and isinstance(s.value, ast.BinOp):
+        t = s.targets[0].id
+        if isinstance(s.value.left, ast.Name) and s.value.left.id == t:
+            return _Aug(s, s.targets[0], s.value.op, s.value.right)
+        if isinstance(s.value.right, ast.Name) and s.value.right.id == t and isinstance(s.value.op, (ast.Add, ast.Mult)) \
+                and not any(isinstance(x, (ast.List, ast.Tuple, ast.Constant)) and isinstance(getattr(x, "value", 0), str) or isinstance(x, (ast.List, ast.Tuple)) for x in ast.walk(s.value.left)):
+            return _Aug(s, s.targets[0], s.value.op, s.value.left)   # e + x / e * x on numbers
+    return None
